@@ -24,11 +24,11 @@ def run(ctx, R):
     declare(R, {**idioms.RULES, **flow.RULES, **lifecycle.RULES, **delivery.RULES}, RULES, FLOORS)
     M = ctx.model
     tf, fl, so = M.cls('streamz.sources', 'from_textfile'), M.cls('streamz.sources', 'filenames'), M.cls('streamz.sources', 'Source')
-    idioms.check_split_carry(ctx, R)
-    idioms.check_seen_set(ctx, R)
-    flow.check_propagate(ctx, R, modules=('streamz.sources',), note_modules=())
+    R.run(idioms.check_split_carry, ctx, R)
+    R.run(idioms.check_seen_set, ctx, R)
+    R.run(flow.check_propagate, ctx, R, modules=('streamz.sources',), note_modules=())
     for k in [k for k in R.obs if k[0] == 'PROPAGATE' and not any(s in k[1] for s in ('from_textfile', 'filenames'))]:
         del R.obs[k]
-    lifecycle.check_stop_check(ctx, R, [(so, so.methods['run'])])
-    delivery.check_atomic_rmw(ctx, R, [(tf, tf.methods['_run']), (fl, fl.methods['_run'])])
-    lifecycle.check_single_flight(ctx, R, [so])
+    R.run(lifecycle.check_stop_check, ctx, R, [(so, so.methods['run'])])
+    R.run(delivery.check_atomic_rmw, ctx, R, [(tf, tf.methods['_run']), (fl, fl.methods['_run'])])
+    R.run(lifecycle.check_single_flight, ctx, R, [so])
